@@ -125,3 +125,22 @@ def projects(big=False):
         one("deep-object-%d" % n, deep_object(n))
         one("many-paths-%d" % n, many_paths(n))
     return out
+
+
+def path_shapes(maxseg=3):
+    """(name, document): every path of up to maxseg segments over a small alphabet of odd segments,
+    in three document shapes (method with its own path, URL + method, URL + JSON-RPC method)"""
+    import itertools
+    atoms = ["", ".", "..", "a", "{id}", "{}", "a.b", "%20"]
+    out = []
+    for n in range(1, maxseg + 1):
+        for segs in itertools.product(atoms, repeat=n):
+            p = "/" + "/".join(segs)
+            key = p.replace("/", "_")
+            out.append(("m" + key, J + "GET %s\n  200 any\n" % p))
+            out.append(("u" + key, J + "URL %s\n  POST\n    200 any\n" % p))
+            if n < 3:
+                out.append(("r" + key, J + 'URL %s\n  Protocol json-rpc-2.0\n  Method go\n    Params\n      {"p": 1}\n' % p))
+    for p in ["/", "//", "a", "a/b", "/a/", "/{", "/}", "/{a}{b}", "/{a}/{a}", "/a?x=1", "/a#f", "/a b", '"/quoted path"', "/%zz", "/\u00e9", "/a/../..", "/."]:
+        out.append(("x" + str(len(out)), J + "GET %s\n  200 any\n" % p))
+    return out
